@@ -128,9 +128,17 @@ def one_case(c, tmp, i):
             h = xyzpy.Harvester(None, data_name=path, engine=engine)
             h.add_ds(ds)
         files = sorted(f for f in os.listdir(os.path.dirname(path)) if not f.startswith("."))
-        back = xyzpy.load_ds(path, engine=engine, chunks=chunks)
+        # half of the loads ask for a blank dataset should no file exist (one does: it must be loaded)
+        create_new = rng.random() < 0.5
+        rep["create_new"] = create_new
+        back = xyzpy.load_ds(path, engine=engine, chunks=chunks, **({"create_new": True} if create_new else {}))
         if chunks is not None:
             back = back.compute()
+        # ... and for a name that was never saved create_new gives a blank dataset, without creating a file
+        blank = xyzpy.load_ds(path + "-never-saved", engine=engine, create_new=True)
+        if len(blank.data_vars) or len(blank.dims) or \
+                sorted(f for f in os.listdir(os.path.dirname(path)) if not f.startswith(".")) != files:
+            return rep, {"error": "load_ds(create_new=True) of an unsaved name is not blank or created a file"}, None
     except Exception as e:  # noqa
         shutil.rmtree(d, ignore_errors=True)
         return rep, {"error": f"{type(e).__name__}: {str(e)[:200]}"}, None
